@@ -30,7 +30,8 @@ class IntModPlain(_Pack):
     name = "pysnark.pack:PackIntMod.pack"
 
     def configs(self, tier):
-        return [dict(mod=m, kind=k) for m in (1, 2, 5, 8, 16, 100) for k in ("plain", "secret")]
+        # 2^60 + 1: a bound beyond the 53 bits a float holds exactly (widths computed through floating point go wrong there)
+        return [dict(mod=m, kind=k) for m in (1, 2, 5, 8, 16, 100) for k in ("plain", "secret")] + [dict(mod=(1 << 60) + 1, kind="plain")]
 
     def setup(self, c, cfg):
         apply_mode(c, "plain", bitlength=3)          # the global width differs from every packer's width
